@@ -114,6 +114,20 @@ def run_case(case):
                         truly_bad.add(f.blocks[i][0])
                 r = a.cmd("scrub", "-p", "full", variant=variant, shim={"time": T, "log": False})
                 hist.append(("damage+scrub-full", T, r.rc))
+        # sometimes EVERY used stripe is bad at once (one disk silently corrupted over its whole length), repaired or not
+        if rng.random() < 0.12:
+            c = a.load_content()
+            T += rng.randint(1, 20) * DAY
+            for pos, ents in sorted(c.stripe_map().items()):
+                fe = [e for e in ents if e[1] == "file"]
+                if fe:
+                    e = rng.choice(fe)
+                    dmg.damage_file_block(a, c, e[2], e[3], rng, "byte")
+            r = a.cmd("scrub", "-p", "full", variant=variant, shim={"time": T, "log": False})
+            hist.append(("damage-every-stripe+scrub-full", T, r.rc))
+            if rng.random() < 0.6:
+                r = a.cmd("fix", "-e", variant=variant, shim={"time": T + 100, "log": False})
+                hist.append(("fix -e", r.rc))
         # optionally files changed since the last sync (unsynced differences)
         unsynced_files = []
         touched_pos = set()
@@ -292,7 +306,7 @@ def run_case(case):
             if _unmatched(res) >= 3:
                 break
         # ---- bounded progress: default scrubs 11 days apart cover everything within 13 runs
-        damaged_layout = any(h[0] == "damage+scrub-full" for h in hist) or bool(truly_bad)
+        damaged_layout = any(h[0] in ("damage+scrub-full", "damage-every-stripe+scrub-full") for h in hist) or bool(truly_bad)
         if idx % 2 == 0 and not unsynced_files and not damaged_layout and _unmatched(res) == 0:
             tpl.restore()
             c0, inf0 = info_of(a)
